@@ -84,6 +84,10 @@ class Vars:
     def const_of_operand(self, op):
         if op["k"] == "const" and "int" in op:
             return int(op["int"])
+        if op["k"] == "const" and "uneval" in op and "promoted" not in op:
+            from .facts import NAMED_LITERALS
+            if op["uneval"] in NAMED_LITERALS:
+                return NAMED_LITERALS[op["uneval"]]
         if op["k"] in ("copy", "move") and not op["p"]["proj"]:
             ds = self.defs.get(op["p"]["l"], [])
             if len(ds) == 1 and ds[0][0] == "assign":
